@@ -25,7 +25,7 @@ fn varint(mut n: usize) -> Vec<u8> {
 }
 
 /// A length-delimited protobuf field; a field without bytes is not written at all (proto3).
-fn proto_field(tag: u8, data: &[u8]) -> Vec<u8> {
+pub(crate) fn proto_field(tag: u8, data: &[u8]) -> Vec<u8> {
     if data.is_empty() {
         return vec![];
     }
